@@ -4,6 +4,8 @@ import (
 	"fmt"
 	"strings"
 	"sync/atomic"
+	"unicode"
+	"unicode/utf8"
 
 	"github.com/osteele/liquid"
 	"github.com/osteele/liquid/parser"
@@ -212,6 +214,34 @@ func c05Value(c *core.Ctx, e *liquid.Engine, v string, i int) {
 	}
 }
 
+// c05Disturb renders unrelated templates that end in a pending right-trim or fail part-way: state they
+// leave behind (pooled writers, flags) must not touch the text of the next render.
+func c05Disturb(e *liquid.Engine, i int) {
+	srcs := []string{"z {{ 'v' -}}", "{%- assign q = 1 -%}", "x {{- 1 -}}  ", "partial {{ 'out' }}{{ 1 | divided_by: 0 }}", "{% raw -%} r {%- endraw -%}", "a{% comment -%}c{%- endcomment -%}"}
+	core.Run(e, srcs[i%len(srcs)], nil)
+}
+
+// c05NextToTrim: a hyphen may only remove whitespace; text that ends (or begins) in a non-whitespace
+// character next to a trim marker reaches the output unchanged, byte for byte.
+func c05NextToTrim(c *core.Ctx, e *liquid.Engine, text string) {
+	t := strings.TrimFunc(text, unicode.IsSpace)
+	if t == "" || strings.ContainsAny(t, "{}%") || !utf8.ValidString(t) { // delimiter characters could fuse with the neighbouring tag
+		return
+	}
+	for k, form := range []string{t + "{{- 1 -}}" + t, t + "{%- assign q = 1 -%}" + t, "{% raw %}" + t + "{% endraw %}{{- 2 -}}{% raw %}" + t + "{% endraw %}", "{{ v }}{{- 3 -}}{{ v }}"} {
+		want := t + []string{"1", "", "2", "3"}[k] + t
+		if k == 2 && !bodyAdmitted("{% raw %}", t, "{% endraw %}", "endraw") {
+			continue
+		}
+		r := core.Run(e, form, map[string]any{"v": t})
+		c.Eval(1)
+		c.Obs("text_next_to_trim_marker", 1)
+		if !r.OK() || r.Out != want {
+			c.Violate("next-to-trim|"+resClass(r), "non-whitespace text next to a whitespace-control hyphen was changed", map[string]any{"source": form, "text": fmt.Sprintf("%q", t), "expected": want, "observed": r.Brief()})
+		}
+	}
+}
+
 func runC05(c *core.Ctx) {
 	e := liquid.NewEngine()
 	e.RegisterTag("vprobe", func(render.Context) (string, error) { c05Probe.Add(1); return "PROBED", nil })
@@ -226,6 +256,9 @@ func runC05(c *core.Ctx) {
 			continue
 		}
 		c05ScanLaw(c, s, []int{0, 1, 1000}[i%3])
+		if i%5 == 0 {
+			c05Disturb(e, i/5)
+		}
 		if !ref.HasOpen(s) {
 			c05Plain(c, e, s)
 		}
@@ -284,7 +317,13 @@ func runC05(c *core.Ctx) {
 			continue
 		}
 		c05ScanLaw(c, s, []int{0, 1, 1000}[i%3])
+		if i%3 == 0 {
+			c05Disturb(e, i/3)
+		}
 		c05Plain(c, e, gen.NoOpen(s))
+		if utf && len(s) < 400 {
+			c05NextToTrim(c, e, s)
+		}
 		if len(s) < 2000 {
 			c05Body(c, e, s, i)
 		}
